@@ -67,6 +67,14 @@ def _gen(rng, sc, n):
                 d.val = d.val[:1] + b'\x00' + d.val[2:]
                 klass = 'nul-in-data'
         add(mt, items, klass)
+        # the same message decoded in PERMISSIVE mode (the permissive_mode login parameter): a data value is still taken by its length,
+        # whatever it contains (missed seed C06-4: the trailer was searched for from the front in that mode)
+        if klass is None and top and rng.random() < 0.4:
+            l0 = lines[-1]
+            wire, _ = cc.ref_encode(sc, mt, meta[l0][1])
+            lp = 'dec p ' + cc.hx(wire)
+            lines.append(lp)
+            meta[lp] = (mt, meta[l0][1], 'PERMISSIVE')
     return lines, meta
 
 
@@ -99,8 +107,24 @@ def run(res, replay=None):
     else:
         lines, meta = gen(rng, sc, 300 if res.tier == 'quick' else 12000)
         lines = vlib.corpus_lines('C06') + lines
-    base = c01.make_oracle(sc, {l: (m[0], m[1]) for l, m in meta.items()})
+    base = c01.make_oracle(sc, {l: (m[0], m[1]) for l, m in meta.items() if m[2] != 'PERMISSIVE'})
+    OKP = re.compile(r'^ok (H\[.*\] B\[.*\] T\[.*\]) re=(\S+)$')
+
     def oracle(line, out):
+        if line in meta and meta[line][2] == 'PERMISSIVE':
+            mt, items, _ = meta[line]
+            m = OKP.match(out)
+            if not m:
+                return (False, None)            # a well-formed message with data fields must be accepted in permissive mode too
+            try:
+                d = cc.parse_dump(m.group(1))
+            except Exception:
+                return (False, None)
+            body_tr = [x for x in sc['msgs'] if x[0] == mt][0][1]
+            exp_h = cc.expected_tree(sc, sc['header'], [i for i in items if i.sec == 'h'])
+            exp_b = cc.expected_tree(sc, body_tr, [i for i in items if i.sec == 'b'])
+            hi = d['H'][0]
+            return (len(hi) >= 3 and hi[2] == (35, mt, None) and hi[3:] == exp_h and d['B'][0] == exp_b, None)
         ok, _ = base(line, out)
         if ok is False and line in meta and meta[line][2]:
             return (False, meta[line][2])
